@@ -232,3 +232,22 @@ package types
 //@ func MsgRecordBeaconTimestamp.ValidateBasic(msg) (err)
 //@   props C01 C07
 //@   ensures err == nil ==> validBech32(msg.Owner) && msg.BeaconId != 0 && msg.SubmitTime != 0 && 1 <= len(msg.Hash) && len(msg.Hash) <= 66
+
+// ---------------------------------------------------------------- messages as seen by the ante decorators
+
+//@ typetag isMsgRegisterBeacon asMsgRegisterBeacon *MsgRegisterBeacon
+//@ typetag isMsgRecordBeaconTimestamp asMsgRecordBeaconTimestamp *MsgRecordBeaconTimestamp
+//@ typetag isMsgPurchaseBeaconStateStorage asMsgPurchaseBeaconStateStorage *MsgPurchaseBeaconStateStorage
+
+//@ prelude
+//@ ;;@ need-type github.com/unification-com/mainchain/x/beacon/types.MsgPurchaseBeaconStateStorage
+//@ ;;@ need-type github.com/unification-com/mainchain/x/beacon/types.Params
+//@ (define-fun isBeaMsg ((m Iface)) Bool (or (isMsgRegisterBeacon m) (isMsgRecordBeaconTimestamp m) (isMsgPurchaseBeaconStateStorage m)))
+//@ (define-fun beaFeeOf ((m Iface) (p beacon.Params)) Int
+//@   (ite (isMsgRegisterBeacon m) (beacon.Params.FeeRegister p)
+//@   (ite (isMsgRecordBeaconTimestamp m) (beacon.Params.FeeRecord p)
+//@   (ite (isMsgPurchaseBeaconStateStorage m) (* (beacon.Params.FeePurchaseStorage p) (beacon.MsgPurchaseBeaconStateStorage.Number (asMsgPurchaseBeaconStateStorage m))) 0))))
+//@ (define-fun-rec beaSumFee ((ms (Slice Iface)) (n Int) (p beacon.Params)) Int
+//@   (ite (<= n 0) 0 (+ (beaSumFee ms (- n 1) p) (beaFeeOf (select (sl.arr ms) (- n 1)) p))))
+//@ (define-fun beaTx ((t Iface)) Bool (exists ((j Int)) (and (<= 0 j) (< j (sl.len (txMsgs t))) (isBeaMsg (select (sl.arr (txMsgs t)) j)))))
+//@ end
